@@ -6,7 +6,8 @@ import Holpy.C15.Proofs.Analyze
 import Holpy.C15.Proofs.TraceInv
 import Holpy.C15.Proofs.MainLoop
 import Holpy.C15.Proofs.Solver
+import Holpy.C15.Proofs.Tseitin
 /-! C15 helper lemmas; the parts live in `Holpy/C15/Proofs/*.lean`:
 `Basic` (membership in `dedup`/`resolution` results), `Trace` (the trace checker is sound),
 `Trail` (invariant of `assigns`, `unit_propagate`), `Analyze` (`analyze_conflict`),
-`TraceInv` (invariant of `proofs`), `MainLoop`, `Solver` (`solve_cnf`). -/
+`TraceInv` (invariant of `proofs`), `MainLoop`, `Solver` (`solve_cnf`), `Tseitin`. -/
